@@ -45,6 +45,18 @@ def run(tier, seed, args):
             if ok != expect_ok:
                 raise vlib.ToolError(f"ChunkSpec: loop '{loop}' (N={n}, DevLen={dl}) expected {'to hold' if expect_ok else 'to be violated'}")
     v.cov["chunk_model"] = mc
+    # (A2) RetrySpec: write_all over PagedWriter::write under the retryable error kind; handing Interrupted to the caller
+    # after the bytes were consumed (the code before D-34) duplicates them
+    rs = []
+    for variant, expect_ok in (("asbuilt", True), ("propagate", False)):
+        cfg = os.path.join(wd, f"retry_{variant}.cfg")
+        vlib.write_cfg(cfg, spec="Spec", constants={"N": 5 if deep else 4, "MaxChunk": 2, "Variant": f'"{variant}"'}, invariants=["Exact", "InStep"])
+        r = vlib.tlc_mc("RetrySpec", cfg, os.path.join(wd, f"retry_{variant}.out"), workers=2, timeout=300)
+        ok = r["violated"] is None and r["ok"]
+        rs.append({"variant": variant, "holds": ok, "states": r["distinct"], "violated": r["violated"]})
+        if ok != expect_ok:
+            raise vlib.ToolError(f"RetrySpec: variant '{variant}' expected {'to hold' if expect_ok else 'to be violated'}; TLC: {r['violated']}")
+    v.cov["retry_model"] = rs
     ps = c16_programs(seed, tier)
     pp = os.path.join(wd, "progs.ndjson")
     with open(pp, "w") as f:
@@ -57,6 +69,8 @@ def run(tier, seed, args):
     evs = [json.loads(x) for x in lines]
     nw = sum(1 for e in evs if e["ev"] == "c16_wfault"); nr = sum(1 for e in evs if e["ev"] == "c16_rfault")
     nc = sum(1 for e in evs if e["ev"] == "c16_chunk")
+    ni = sum(1 for e in evs if e["ev"] == "c16_wintr"); nretry = sum(1 for e in evs if e["ev"] == "c16_wretry")
+    v.cov["interrupted_positions"] = ni; v.cov["finalize_retries"] = nretry
     kinds = set()
     for e in evs:
         for h in e.get("hit", []):
@@ -69,8 +83,9 @@ def run(tier, seed, args):
     filecommon.run_programs(v, wd, exe, chunked, "chunked", focus=("C16", "C01", "C02", "C06"))
     v.add(exhaustive=True, evaluations=nw + nr + nc + len(chunked), distinct_nontrivial=nw + nr,
           rule="one case = one position of a single injected error in the device operation sequence (exhaustive over all reads, writes, seeks and flushes of each writer and reader program), "
+               "or the same position with the retryable error kind (Interrupted: finalize Ok only with the complete file), or a failed finalize tried again (Ok only with a file that reads as the complete one), "
                "or one short-transfer schedule; distinct = fault positions; calls hit: " + ", ".join(sorted(kinds)),
           traces_validated_against_impl=len(ps))
-    v.assumptions += ["single fault per run; behaviour after a failed call is not constrained (the program stops there)",
+    v.assumptions += ["single fault per run; behaviour after a failed call is not constrained (the program stops there) except for a repeated top-level finalize",
                       "a fault inside a destructor cannot be reported and is allowed"]
     return v.finish()
